@@ -18,6 +18,13 @@ enum Ty {
     Other,
 }
 
+const BUILTIN_NAMES: [&str; 28] = [
+    "builtin:waitable_set_new", "builtin:waitable_set_drop", "builtin:waitable_join", "builtin:subtask_drop", "builtin:subtask_cancel", "builtin:subtask_cancel_async", "builtin:yield",
+    "builtin:yield_async", "builtin:task_cancel", "builtin:context_get", "builtin:context_set", "builtin:backpressure_set", "builtin:error_context_drop", "builtin:thread_available_parallelism",
+    "builtin:stream_new", "builtin:stream_drop_readable", "builtin:stream_drop_writable", "builtin:stream_cancel_read", "builtin:stream_cancel_write", "builtin:future_new", "builtin:future_drop_readable",
+    "builtin:future_drop_writable", "builtin:future_cancel_read", "builtin:future_cancel_write", "builtin:resource_new", "builtin:resource_drop", "builtin:resource_rep", "builtin:resource_drop_async",
+];
+
 #[derive(Clone, Debug, Default)]
 pub struct CompInfo {
     pub has_imports: bool,
@@ -422,6 +429,7 @@ impl<'x> GenComp<'x> {
                         c.section(&s);
                         l.core_funcs.push(2);
                         self.classes.push("canon_builtin");
+                        self.classes.push(BUILTIN_NAMES[k]);
                         continue;
                     }
                     let mut s = we::CanonicalFunctionSection::new();
